@@ -1015,7 +1015,7 @@ class Steward():
         data['fragment'] = fragment
 
         data['headers'] = list(self.requestant.headers.items())  # copy.copy(self.requestant.headers)  # make copy
-        data['body'] = self.requestant.body.decode('utf-8')
+        data['body'] = self.requestant.body.decode('utf-8', errors='replace')
         data['data'] = copy.copy(self.requestant.data)  # make copy
 
         msg = self.responder.build(status=200, data=data)
